@@ -1150,7 +1150,12 @@ class ProgGen:
                 self.feat("multi-return")
                 self.emit(f"if {self.e_bool(1)}:")
                 self.ind += 1
-                self.emit(f"return {self.expr(ret, 1)}")
+                if ret == "float" and self.chance(0.5):
+                    # one arm returns a whole number, the other a fraction: the function's result type is the wider one
+                    self.feat("multi-return-int-and-float")
+                    self.emit(f"return {self.r.choice(['10', '0', '3', '-1'])}")
+                else:
+                    self.emit(f"return {self.expr(ret, 1)}")
                 self.ind -= 1
             self.emit(f"return {self.expr(ret, 1)}")
         self.ind -= 1
